@@ -148,7 +148,15 @@ pub fn xls_doc(case: &Case) -> b8::XlsDoc {
         v
     };
     {
-        let mut cells: Vec<b8::BCell> = case.formulas.iter().map(|(p, e)| b8::BCell { row: p.0 as u16, col: p.1 as u16, ixfe: 0, rec: b8::BRec::Formula { value: b8::FVal::Num(0.0), rgce: rgce(e, Biff::B8, case.class_knob) } }).collect();
+        // the cached result of a formula can be of any type: the formula text must not depend on it
+        let cached = |i: usize| match (i + case.class_knob as usize) % 5 {
+            0 => b8::FVal::Num(0.0),
+            1 => b8::FVal::Str("r".into(), i % 2 == 0),
+            2 => b8::FVal::Bool(true),
+            3 => b8::FVal::Err(0x07),
+            _ => b8::FVal::EmptyStr,
+        };
+        let mut cells: Vec<b8::BCell> = case.formulas.iter().enumerate().map(|(i, (p, e))| b8::BCell { row: p.0 as u16, col: p.1 as u16, ixfe: 0, rec: b8::BRec::Formula { value: cached(i), rgce: rgce(e, Biff::B8, case.class_knob) } }).collect();
         cells.extend(case.consts.iter().map(|p| b8::BCell { row: p.0 as u16, col: p.1 as u16, ixfe: 0, rec: b8::BRec::Number(7.0) }));
         cells.sort_by_key(|c| (c.row, c.col));
         let other = |n: &str| b8::BSheet { name: n.into(), cells: vec![b8::BCell { row: 0, col: 0, ixfe: 0, rec: b8::BRec::Number(1.0) }], ..Default::default() };
@@ -166,8 +174,15 @@ pub fn xls_doc(case: &Case) -> b8::XlsDoc {
 
 pub fn xlsb_doc(case: &Case) -> bb::XlsbDoc {
 let mut rows: BTreeMap<u32, Vec<bb::BbCell>> = BTreeMap::new();
-    for (p, e) in &case.formulas {
-        rows.entry(p.0).or_default().push(bb::BbCell { col: p.1, style: 0, rec: bb::BbRec::FmlaNum(0.0, rgce(e, Biff::B12, case.class_knob)) });
+    for (i, (p, e)) in case.formulas.iter().enumerate() {
+        let r = rgce(e, Biff::B12, case.class_knob);
+        let rec = match (i + case.class_knob as usize) % 4 {
+            0 => bb::BbRec::FmlaNum(0.0, r),
+            1 => bb::BbRec::FmlaString("r".into(), r),
+            2 => bb::BbRec::FmlaBool(true, r),
+            _ => bb::BbRec::FmlaError(0x07, r),
+        };
+        rows.entry(p.0).or_default().push(bb::BbCell { col: p.1, style: 0, rec });
     }
     for p in &case.consts {
         rows.entry(p.0).or_default().push(bb::BbCell { col: p.1, style: 0, rec: bb::BbRec::Real(7.0) });
@@ -198,17 +213,25 @@ let mut rows: BTreeMap<u32, Vec<bb::BbCell>> = BTreeMap::new();
 
 pub fn xlsx_doc(case: &Case) -> xx::XlsxDoc {
 let mut rows: BTreeMap<u32, Vec<xx::XCell>> = BTreeMap::new();
-    for (p, e) in &case.formulas {
-        rows.entry(p.0).or_default().push(xx::XCell { col: p.1, explicit: true, style: None, value: xx::XVal::Num { lex: "0".into(), typed: false }, formula: Some(xx::XFormula::Plain(render(e))) });
+    // cell and row references are written or left implicit (where the implied cursor is right)
+    let (row_refs, cell_refs) = (case.class_knob & 0x20 == 0, case.class_knob & 0x40 == 0);
+    for (i, (p, e)) in case.formulas.iter().enumerate() {
+        let value = match (i + case.class_knob as usize) % 4 {
+            0 => xx::XVal::Num { lex: "0".into(), typed: false },
+            1 => xx::XVal::Str("r".into()),
+            2 => xx::XVal::Bool(true),
+            _ => xx::XVal::Err(1),
+        };
+        rows.entry(p.0).or_default().push(xx::XCell { col: p.1, explicit: cell_refs, style: None, value, formula: Some(xx::XFormula::Plain(render(e))) });
     }
     for p in &case.consts {
-        rows.entry(p.0).or_default().push(xx::XCell { col: p.1, explicit: true, style: None, value: xx::XVal::Num { lex: "7".into(), typed: false }, formula: None });
+        rows.entry(p.0).or_default().push(xx::XCell { col: p.1, explicit: cell_refs, style: None, value: xx::XVal::Num { lex: "7".into(), typed: false }, formula: None });
     }
     let rows = rows
         .into_iter()
         .map(|(r, mut cells)| {
             cells.sort_by_key(|c| c.col);
-            xx::XRow { r, explicit: true, attrs: false, cells }
+            xx::XRow { r, explicit: row_refs, attrs: false, cells }
         })
         .collect();
     let doc = xx::XlsxDoc { sheets: vec![xx::XSheet { name: "Main".into(), rows, ..Default::default() }], ..Default::default() };
